@@ -586,6 +586,46 @@ async def bulk_case(case: Dict[str, Any]) -> List[Tuple[str, str]]:
     return [] if ok else [("bulk-transfer-differs", f"{m}: {len(got)} responses, handler saw {len(seen)} requests")]
 
 
+async def pingpong_case(case: Dict[str, Any]) -> List[Tuple[str, str]]:
+    """A conversation over a bidirectional stream: request i+1 is produced only after response i
+    has arrived (the documented AsyncChannel pattern).  Nothing may be held back."""
+    from betterproto.grpc.util.async_channel import AsyncChannel
+    main, other = gen()
+    T = types(main, other)
+    py = py_method_names(main)["Get2Fa"]
+    seen: List[int] = []
+
+    async def echo(self, arg):
+        async for r in arg:
+            seen.append(r.q)
+            yield T["Resp"](r=r.q + 100, s=r.s)
+
+    Svc = type("PingPongSvc", (main.MainBase,), {py: echo})
+    n = case["n"]
+    got: List[int] = []
+    async with ChannelFor([Svc()]) as channel:
+        stub = main.MainStub(channel)
+        ch = AsyncChannel()
+
+        async def talk():
+            await ch.send(T["Req"](q=0, s="first"))
+            async for resp in getattr(stub, py)(ch):
+                got.append(resp.r)
+                if len(got) < n:
+                    await ch.send(T["Req"](q=len(got), s="next"))
+                else:
+                    ch.close()
+        try:
+            await asyncio.wait_for(talk(), 40)
+        except asyncio.TimeoutError:
+            return [("conversation-stuck", f"ping-pong over Get2Fa: after 40 s the caller has {got!r}, the handler saw {seen!r} of {n} requests")]
+        except Exception as e:
+            return [("conversation-failed", f"{type(e).__name__}: {e}"[:200])]
+    if got != [100 + i for i in range(n)] or seen != list(range(n)):
+        return [("conversation-differs", f"caller received {got!r}, handler saw {seen!r}")]
+    return []
+
+
 async def root_case(case: Dict[str, Any]) -> List[Tuple[str, str]]:
     """A service in the ROOT package (no proto package): route is /RootSvc/<Method>."""
     gen()
@@ -668,6 +708,8 @@ def cases(tier: str) -> List[Dict[str, Any]]:
         for what in ("timeout", "deadline"):
             out.append({"kind": "reuse", "method": m, "what": what})
         out.append({"kind": "concurrent", "method": m})
+    for n in (1, 2, 3):
+        out.append({"kind": "pingpong", "method": "Get2Fa", "n": n})
     for m, srcs in (("Get2Fa", ("list", "async")), ("SENDAll", ("list", "async")), ("list_things", ("list",))):
         for src in srcs:
             out.append({"kind": "bulk", "method": m, "source": src})
@@ -683,10 +725,10 @@ def cases(tier: str) -> List[Dict[str, Any]]:
 def sig(case: Dict[str, Any], oracle: str) -> List[str]:
     if case["kind"] == "root":
         return ["grpc", oracle, "root-package", case["method"]]
-    if case["kind"] in ("reuse", "concurrent", "bulk"):
+    if case["kind"] in ("reuse", "concurrent", "bulk", "pingpong"):
         _, cstream, sstream, rk, _ = METHODS[case["method"]]
         return ["grpc", oracle, ("stream" if cstream else "unary") + "-" + ("stream" if sstream else "unary"),
-                case["kind"] + ":" + case.get("what", case.get("source", ""))]
+                case["kind"] + ":" + str(case.get("what", case.get("source", case.get("n", ""))))]
     _, cstream, sstream, rk, _ = METHODS[case["method"]]
     card = ("stream" if cstream else "unary") + "-" + ("stream" if sstream else "unary")
     return ["grpc", oracle, card, case.get("outcome", "precedence")]
@@ -703,10 +745,10 @@ def _shard(shard: int, nshards: int, tier: str) -> Tally:
             case = cs[i]
             t.inc("calls")
             t.mark("distinct", (case["kind"], case["method"], tuple(case.get("req_idx", ())), case.get("n_out"),
-                                case.get("outcome"), str(case.get("as_async")), tuple(case.get("cfg", ())), case.get("a"), case.get("form"), case.get("what"), case.get("source")))
+                                case.get("outcome"), str(case.get("as_async")), tuple(case.get("cfg", ())), case.get("a"), case.get("form"), case.get("what"), case.get("source"), case.get("n")))
             try:
                 fn = {"precedence": precedence_case, "root": root_case, "reuse": reuse_case,
-                      "concurrent": concurrent_case, "bulk": bulk_case}.get(case["kind"], one_case)
+                      "concurrent": concurrent_case, "bulk": bulk_case, "pingpong": pingpong_case}.get(case["kind"], one_case)
                 fails = loop.run_until_complete(fn(case))
             except Exception as e:
                 fails = [("harness-raised", f"{type(e).__name__}: {e}"[:300])]
@@ -752,7 +794,7 @@ def replay(case: dict) -> List[Violation]:
     loop = asyncio.new_event_loop()
     try:
         fn = {"precedence": precedence_case, "root": root_case, "reuse": reuse_case,
-                      "concurrent": concurrent_case, "bulk": bulk_case}.get(case["kind"], one_case)
+                      "concurrent": concurrent_case, "bulk": bulk_case, "pingpong": pingpong_case}.get(case["kind"], one_case)
         fails = loop.run_until_complete(fn(case))
     finally:
         loop.close()
